@@ -47,6 +47,14 @@ def cases(tier, cfg, seed):
             out.append(Pair(f'mmt{n}', T, [A, B, C], decl, 'A % trans(B)', f'{T2(T, n, n)} u_ = transpose(B); {T2(T, n, n)} t_ = matmul(A,u_); D @OP t_;', nn))
             out.append(Pair(f'alias{n}', T, [A, B, C], decl, '2*D + A % B', f'{T2(T, n, n)} t_ = matmul(A,B); D @OP 2*D + t_;', nn))
             out.append(Pair(f'alias{n}', T, [A, B, C], decl, 'D - A % B', f'{T2(T, n, n)} t_ = matmul(A,B); D @OP D - t_;', nn, '+='))
+            # destination reused element-wise next to an evaluation-requiring node, in nested and compound forms
+            out.append(Pair(f'aliasDD{n}', T, [A, B, C], decl, 'A % B + D*D', f'{T2(T, n, n)} t_ = matmul(A,B); {T2(T, n, n)} u_ = D*D; D @OP t_ + u_;', nn, '+='))
+            out.append(Pair(f'aliasnest{n}', T, [A, B, C], decl, '2 + (A % B + D)', f'{T2(T, n, n)} t_ = matmul(A,B); {T2(T, n, n)} u_ = D; D @OP 2 + (t_ + u_);', nn, '+='))
+            out.append(Pair(f'aliassm{n}', T, [A, B, C], decl, '3 - (D + A % B)', f'{T2(T, n, n)} t_ = matmul(A,B); {T2(T, n, n)} u_ = D; D @OP 3 - (u_ + t_);', nn, '-='))
+            out.append(Pair(f'aliasas{n}', T, [A, B, C], decl, 'A % B + D*D', f'{T2(T, n, n)} t_ = matmul(A,B); {T2(T, n, n)} u_ = D*D; D @OP t_ + u_;', nn, '='))
+            out.append(Pair(f'sml{n}', T, [A, B, C], decl, '2 - (A % B)', f'{T2(T, n, n)} t_ = matmul(A,B); D @OP 2 - t_;', nn, '+='))
+            out.append(Pair(f'sml{n}', T, [A, B, C], decl, '2 - trans(A)', f'{T2(T, n, n)} t_ = transpose(A); D @OP 2 - t_;', nn, '-='))
+            out.append(Pair(f'chsub{n}', T, [A, B, C], decl, 'A % B % C', f'{T2(T, n, n)} t_ = matmul(A,B); {T2(T, n, n)} u_ = matmul(t_,C); D @OP u_;', nn, '-='))
             out.append(Pair(f'det{n}', T, [A, B, C], decl, 'det(A) * B', f'{T} s_ = determinant(A); D @OP s_ * B;', nn))
             out.append(Pair(f'trace{n}', T, [A, B, C], decl, 'trace(A) * B + C', f'{T} s_ = trace(A); D @OP s_ * B + C;', nn))
             out.append(Pair(f'inv{n}', T, [A, B, C], decl, 'inv(A)', f'{T2(T, n, n)} t_ = inverse(A); D @OP t_;', nn))
